@@ -15,5 +15,14 @@ SPEC = {
                  'asserts': 'get_pk_file_mode / get_cert_file_mode / owner getters return the configured value, else 0600 / 0644 / none'},
             ],
         },
+        {
+            'name': 'owner', 'shims': ['nix'], 'edits': STORAGE_EDITS, 'assumptions': STORAGE_ASSUMPTIONS,
+            'harness_files': {ST: 'harness/storage.rs'},
+            'harnesses': [
+                {'name': 'c13_owner_numeric_and_named', 'file': ST, 'timeout': 1800, 'unwindset': {'all::<|Bytes|from_str_radix|from_ascii': 3, 'memcmp': 2},
+                 'bounds': 'pk_file_user = any one-digit number, pk_file_group = a name known to the user database (any gid) or unknown; certificate owner unset',
+                 'asserts': 'set_owner passes the numeric uid as is and the looked-up gid (none for an unknown name) to chown for the key file; key-file owner settings do not leak to the certificate file'},
+            ],
+        },
     ],
 }
